@@ -12,18 +12,24 @@ def mismatches(tlc_out):
         res[int(m.group(1))] = m.group(2).replace('\\"', '"')
     return res
 
-def judge(ctx, module, cfg, trace, classify=None, chunk=40000, what='case'):
-    """Validate a one-line-per-case trace; returns number of accepted cases.
-    classify(row, text) -> finding id (str) if the mismatch is a listed known finding, else None."""
+def judge(ctx, module, cfg, trace, classify=None, chunk=8000, what='case', par=8):
+    """Validate a one-line-per-case trace (chunks validated by parallel TLC runs); returns (accepted, total).
+    classify(row, text) -> (finding id, description) if the mismatch is a listed known finding, else None."""
+    from concurrent.futures import ThreadPoolExecutor
     rows = vtlib.read_ndjson(trace)
-    total_ok = 0
-    nchunks = 0
-    for start in range(0, len(rows), chunk):
+    chunks = []
+    for n, start in enumerate(range(0, len(rows), chunk)):
         part = rows[start:start + chunk]
-        p = f'{ctx.out}/{os.path.basename(trace)}.{nchunks}.ndjson'
+        p = f'{ctx.out}/{os.path.basename(trace)}.{n}.ndjson'
         vtlib.write_ndjson(p, part)
-        r = ctx.trace_check(module, cfg, p, timeout=1500, deque=False, tag=f'trace_{module}_{nchunks}')
-        nchunks += 1
+        chunks.append((n, start, part, p))
+    def work(c):
+        n, start, part, p = c
+        return c, ctx.trace_check(module, cfg, p, timeout=1500, deque=False, xmx='3g', tag=f'trace_{module}_{n}')
+    total_ok = 0
+    with ThreadPoolExecutor(max_workers=par) as ex:
+        results = list(ex.map(work, chunks))
+    for (n, start, part, p), r in results:
         if not r['accepted']:
             # the trace spec consumes every line; not reaching the end means the spec could not evaluate a line
             raise vtlib.InfraError(f'{module}: trace not consumed to the end (depth {r["depth"]}/{len(part)}), see {r["log"]}')
@@ -40,5 +46,6 @@ def judge(ctx, module, cfg, trace, classify=None, chunk=40000, what='case'):
                 ctx.violation(f'{what} {json.dumps(row)[:300]} :: {mm[ln]}', rp)
             else:
                 ctx.violations.append((mm[ln], ''))
+        os.unlink(p)
     ctx.traces_ok += total_ok
     return total_ok, len(rows)
